@@ -24,6 +24,7 @@ func checkC02(c *Check, a *Anchors) {
 	sharedWait(c, a)    // a task call that joins a shared execution returns only when that execution has finished
 	c10WriteOrder(c, a) // call variables are applied above every Taskfile / include level, below the callee's own vars
 	cmdTemplatedWhole(c, a)
+	extrasWin(c, a)
 	c01DepsJoined(c, a) // a task call returns only after the callee's dependencies have all finished: the dependency runner joins every goroutine it started
 	orderedRebuildSinglePass(c, a, "ordered-rebuild-single-pass")
 }
